@@ -50,6 +50,7 @@ type Options struct {
 	SendDuration   time.Duration
 	RootPaths      []string // overrides Roots when set
 	Proxy          bool     // gRPC: put a cuttable TCP proxy between client and server
+	NoValid        bool     // gRPC: hand the configuration to the server as it is (the server application does not validate it)
 }
 
 // Env is one opened database.
@@ -124,8 +125,10 @@ func Open(o Options) (*Env, error) {
 		e.C = verif.InlineContainer(db)
 	case Grpc:
 		cfg := e.Cfg
-		if err := cfg.Storage.Valid(); err != nil {
-			return nil, err
+		if !o.NoValid {
+			if err := cfg.Storage.Valid(); err != nil {
+				return nil, err
+			}
 		}
 		e.Cfg = cfg
 		ctx, cancel := context.WithCancel(context.Background())
